@@ -10,16 +10,16 @@ Local Open Scope N_scope.
 (* every flag produced for well-formed options by the compiler table, the linker table and the library
    table (current tree: optimize size is -Os) is a word of the accepted grammar; in both modes, for C and
    C++, for every set of default include directories, for option lists of any length *)
-Theorem C16_accepted : forall lg pk defaults l,
+Theorem C16_accepted : forall lg dfix pk defaults l,
   Forall (fun o => wf_option lg o = true) l ->
-  res_accepted lg (cc_flags true pk defaults l) = true /\
+  res_accepted lg (cc_flags true dfix pk defaults l) = true /\
   res_accepted lg (ld_flags true pk l) = true /\
   res_accepted lg (ld_lib_flags pk l) = true.
 Proof. exact accepted_all. Qed.
 Print Assumptions C16_accepted.
 
 (* the finite part of the option type, checked by computation over its full enumeration *)
-Theorem C16_accepted_finite : forall lg pk o, In o finite_opts -> check_opt true pk [] lg o = true.
+Theorem C16_accepted_finite : forall lg dfix pk o, In o finite_opts -> check_opt true dfix pk [] lg o = true.
 Proof. exact finite_opts_accepted. Qed.
 Print Assumptions C16_accepted_finite.
 
@@ -29,8 +29,8 @@ Proof. split; [exact all_warn_complete|exact all_optv_complete]. Qed.
 Print Assumptions C16_enumeration_complete.
 
 (* the tables are total on their side: compile-side options never raise in the compiler table ... *)
-Theorem C16_compile_total : forall fixed pk defaults l, forallb compile_side l = true ->
-  exists fl, cc_flags fixed pk defaults l = Ok fl.
+Theorem C16_compile_total : forall fixed dfix pk defaults l, forallb compile_side l = true ->
+  exists fl, cc_flags fixed dfix pk defaults l = Ok fl.
 Proof. exact cc_flags_total. Qed.
 Print Assumptions C16_compile_total.
 
@@ -41,26 +41,26 @@ Print Assumptions C16_link_total.
 (* with the table as originally written (optimize size -> -Osize, DESIGN 7.2) the claim is false *)
 Theorem C16_accepted_refuted : exists lg o,
   wf_option lg o = true /\ compile_side o = true /\ link_side o = true /\
-  res_accepted lg (cc_flags false false [] [o]) = false /\
+  res_accepted lg (cc_flags false false false [] [o]) = false /\
   res_accepted lg (ld_flags false false [o]) = false.
 Proof. exact accepted_refuted. Qed.
 Print Assumptions C16_accepted_refuted.
 
 (* the compile command is  cmd always ENV GLOBAL TARGET -c input ...  in this order *)
-Theorem C16_merge_order : forall fixed defaults cmd always envf gopts internal user input output deps argv,
-  cc_final fixed defaults cmd always envf gopts internal user input output deps = Ok argv ->
+Theorem C16_merge_order : forall fixed dfix defaults cmd always envf gopts internal user input output deps argv,
+  cc_final fixed dfix defaults cmd always envf gopts internal user input output deps = Ok argv ->
   exists gf tf tail,
-    cc_flags fixed false defaults gopts = Ok gf /\
-    cc_flags fixed false defaults (ol_add (ol_make internal) user) = Ok tf /\
+    cc_flags fixed dfix false defaults gopts = Ok gf /\
+    cc_flags fixed dfix false defaults (ol_add (ol_make internal) user) = Ok tf /\
     argv = cmd ++ always ++ envf ++ gf ++ tf ++ STR "-c" :: input :: tail.
 Proof. exact cc_merge_order. Qed.
 Print Assumptions C16_merge_order.
 
 (* so a per-target flag always comes after every environment and global flag (it can override them) *)
-Theorem C16_target_overrides : forall fixed defaults cmd always envf gopts internal user input output deps argv x y,
-  cc_final fixed defaults cmd always envf gopts internal user input output deps = Ok argv ->
-  forall gf tf, cc_flags fixed false defaults gopts = Ok gf ->
-    cc_flags fixed false defaults (ol_add (ol_make internal) user) = Ok tf ->
+Theorem C16_target_overrides : forall fixed dfix defaults cmd always envf gopts internal user input output deps argv x y,
+  cc_final fixed dfix defaults cmd always envf gopts internal user input output deps = Ok argv ->
+  forall gf tf, cc_flags fixed dfix false defaults gopts = Ok gf ->
+    cc_flags fixed dfix false defaults (ol_add (ol_make internal) user) = Ok tf ->
     In x (envf ++ gf) -> In y tf ->
     exists p m s, argv = p ++ x :: m ++ y :: s.
 Proof. exact cc_target_last. Qed.
@@ -76,9 +76,9 @@ Proof. exact ld_merge_order. Qed.
 Print Assumptions C16_merge_order_link.
 
 (* flags of consecutive option lists are concatenated in order *)
-Theorem C16_flags_in_order : forall fixed pk defaults a b fa fb,
-  cc_flags fixed pk defaults a = Ok fa -> cc_flags fixed pk defaults b = Ok fb ->
-  cc_flags fixed pk defaults (a ++ b) = Ok (fa ++ fb).
+Theorem C16_flags_in_order : forall fixed dfix pk defaults a b fa fb,
+  cc_flags fixed dfix pk defaults a = Ok fa -> cc_flags fixed dfix pk defaults b = Ok fb ->
+  cc_flags fixed dfix pk defaults (a ++ b) = Ok (fa ++ fb).
 Proof. exact cc_flags_app. Qed.
 Print Assumptions C16_flags_in_order.
 
@@ -91,8 +91,8 @@ Theorem C16_dedup_harmless : forall l,
   (forall l1 o l2, l = l1 ++ o :: l2 -> is_raw o = true \/ existsb (opt_eqb o) l1 = false -> In o (ol_make l)) /\
   (forall o, In o l -> existsb (opt_eqb o) (ol_make l) = true) /\
   (no_repeat [] l = true -> ol_make l = l) /\
-  (forall fixed pk defaults fl, cc_flags fixed pk defaults l = Ok fl ->
-     exists fd, cc_flags fixed pk defaults (ol_make l) = Ok fd /\ subseq fd fl).
+  (forall fixed dfix pk defaults fl, cc_flags fixed dfix pk defaults l = Ok fl ->
+     exists fd, cc_flags fixed dfix pk defaults (ol_make l) = Ok fd /\ subseq fd fl).
 Proof.
   intros l. split; [apply dedup_subseq|]. split; [intros l1 o l2 ->; apply dedup_keeps_first|].
   split; [apply dedup_complete|]. split; [apply dedup_id|]. intros; now apply dedup_flags_subseq.
@@ -102,30 +102,37 @@ Print Assumptions C16_dedup_harmless.
 (* the literal reading - the LAST occurrence of a repeated option is never dropped - is false: re-asserting
    an option after a conflicting one has no effect (speed, disable, speed gives -O3 -O0) *)
 Theorem C16_dedup_last_refuted : exists l fa fb,
-  cc_flags true false [] l = Ok fa /\ cc_flags true false [] (ol_make l) = Ok fb /\
+  cc_flags true false false [] l = Ok fa /\ cc_flags true false false [] (ol_make l) = Ok fb /\
   last fa [] = STR "-O3" /\ last fb [] = STR "-O0".
 Proof. exact dedup_last_refuted. Qed.
 Print Assumptions C16_dedup_last_refuted.
 
 (* effect of define, against the reading of -D by the preprocessor (macro_of_flag) *)
-Theorem C16_define_effect_partial : forall fixed pk defaults n v,
+Theorem C16_define_effect_partial : forall fixed dfix pk defaults n v,
   is_ident n = true -> v <> [] ->
-  exists f, cc_flag1 fixed pk defaults (ODefine n (Some v)) = Ok [f] /\ macro_of_flag f = Some (n, v).
+  exists f, cc_flag1 fixed dfix pk defaults (ODefine n (Some v)) = Ok [f] /\ macro_of_flag f = Some (n, v).
 Proof. exact define_effect. Qed.
 Print Assumptions C16_define_effect_partial.
 
-Theorem C16_define_effect_bare : forall fixed pk defaults n,
+Theorem C16_define_effect_bare : forall fixed dfix pk defaults n,
   is_ident n = true ->
-  exists f, cc_flag1 fixed pk defaults (ODefine n None) = Ok [f] /\ macro_of_flag f = Some (n, STR "1").
+  exists f, cc_flag1 fixed dfix pk defaults (ODefine n None) = Ok [f] /\ macro_of_flag f = Some (n, STR "1").
 Proof. exact define_effect_bare. Qed.
 Print Assumptions C16_define_effect_bare.
 
 (* an explicitly empty value is treated like an absent one: the macro is 1, not empty *)
 Theorem C16_define_effect_refuted : exists n f,
-  is_ident n = true /\ cc_flag1 true false [] (ODefine n (Some [])) = Ok [f] /\
+  is_ident n = true /\ cc_flag1 true false false [] (ODefine n (Some [])) = Ok [f] /\
   macro_of_flag f = Some (n, STR "1").
 Proof. exact define_empty_refuted. Qed.
 Print Assumptions C16_define_effect_refuted.
+
+(* ... and with the repaired translation (dfix = true) the effect holds for every value *)
+Theorem C16_define_effect_fixed : forall fixed pk defaults n v,
+  is_ident n = true ->
+  exists f, cc_flag1 fixed true pk defaults (ODefine n (Some v)) = Ok [f] /\ macro_of_flag f = Some (n, v).
+Proof. exact define_effect_fixed. Qed.
+Print Assumptions C16_define_effect_fixed.
 
 (* ---- non-vacuity *)
 Example wf_sample : Forall (fun o => wf_option LangC o = true)
@@ -135,7 +142,7 @@ Example wf_sample : Forall (fun o => wf_option LangC o = true)
 Proof. repeat constructor. Qed.
 
 Example cc_sample :
-  cc_flags true false [STR "/usr/include"]
+  cc_flags true false false [STR "/usr/include"]
     [OInclude (STR "/opt/inc") true; OInclude (STR "/usr/include") false; ODefine (STR "FOO") (Some (STR "a b"));
      OWarning [WAll; WError]; OOptimize [OSize; OLinktime]; OPch (STR "/b/h.h")]
   = Ok [STR "-isystem"; STR "/opt/inc"; STR "-DFOO=a b"; STR "-Wall"; STR "-Werror"; STR "-Os"; STR "-flto";
@@ -163,7 +170,7 @@ Example dedup_sample :
 Proof. vm_compute. reflexivity. Qed.
 
 Example merge_sample :
-  cc_final true [] [STR "cc"] [STR "-x"; STR "c"] [STR "-O1"] [OOptimize [OSpeed]] [OPic] [OOptimize [ODisable]]
+  cc_final true false [] [STR "cc"] [STR "-x"; STR "c"] [STR "-O1"] [OOptimize [OSpeed]] [OPic] [OOptimize [ODisable]]
            (STR "in.c") (STR "out.o") None
   = Ok [STR "cc"; STR "-x"; STR "c"; STR "-O1"; STR "-O3"; STR "-fPIC"; STR "-O0"; STR "-c"; STR "in.c";
         STR "-o"; STR "out.o"].
